@@ -199,6 +199,19 @@ def key_function_sites(ctx, only=None):
         subs = [x for x in ast.walk(m.node) if isinstance(x, ast.Subscript) and is_self_attr(x.value, "map", selfname=rv) and isinstance(x.ctx, ast.Load)]
         if not subs or not any(isinstance(x, ast.Name) and x.id == va for x in ast.walk(m.node)):
             continue
+        verdict = _method_key_by_interpretation(ctx, oc, m, sel)
+        if verdict is not None:
+            ok_i, detail_i = verdict
+            n += 1
+            ctx.touch(m)
+            ctx.ob(
+                f"{m.key}:key-selector",
+                m.loc(subs[0]),
+                f"{m.name}() looks the table up under one element per argument, each built by the key function the per-position selector gives for that position (interpreted)",
+                ok_i,
+                f"{m.name}() {detail_i}: it names / continues to a different method than the call itself",
+            )
+            continue
         # expressions the key is built from (def chain of the subscript's key), and aliases of the selector
         aliases = {sel.name}
         for a in ast.walk(m.node):
@@ -234,6 +247,53 @@ def key_function_sites(ctx, only=None):
             f"{m.name}() builds its lookup key without the per-position selector: it names / continues to a different method than the call itself",
         )
     ctx.require(n, "no key-building site found")
+
+
+def _method_key_by_interpretation(ctx, oc, m, sel):
+    """Interpret a method of the function class that takes the call's arguments and subscripts the table: the key it
+    uses must be (caller's code object,)? + (selector(i)(arg_i) for every argument).  None if not interpretable."""
+    from ..metainterp import HostFn, HostInterp, Raised, Record
+
+    keys = []
+
+    class _Map(dict):
+        def __missing__(self, key):
+            keys.append(key)
+            return HostFn(lambda *a, **k: ("CALL", key, a, k))
+
+    class _Sel:
+        def get(self, k, default=None):
+            return HostFn(lambda v, k=k: (("type-valued" if k == 0 else "plain"), k, v))
+
+    CODE = Record(kind="caller's code")
+    analysis = Record()
+    setattr(analysis, sel.name, HostFn(lambda k: _Sel().get(k)))
+    me = Record(map=_Map(), _compiled=True, _locked=False, name="f", children=[], mixins=[])
+    # the attribute through which the selector is reached: `self.<attr>.<selector>`
+    attrs = {x.value.attr for mm in oc.methods.values() for x in ast.walk(mm.node) if isinstance(x, ast.Attribute) and x.attr == sel.name and isinstance(x.value, ast.Attribute)}
+    for a in attrs:
+        setattr(me, a, analysis)
+    build = A.build_method(ctx.repo)
+    ensurers = {build.name} | {mm.name for mm in oc.methods.values() if any(is_self_attr(c.func, build.name, selfname=recv_name(mm)) for c in ast.walk(mm.node) if isinstance(c, ast.Call)) and mm is not m}
+    for e in ensurers:
+        setattr(me, e, HostFn(lambda *a, **k: None))
+    methods = {n: mm.node for n, mm in oc.methods.items() if n not in ensurers}
+    genv = {"sys": Record(_getframe=HostFn(lambda n=0: Record(f_code=CODE, f_back=Record(f_code=CODE))))}
+    hi = HostInterp(methods, me, _Sel(), globals_env=genv, classes={}, functions={})
+    try:
+        hi.call_function(m.node, [me, "v0", "v1"], {}, {})
+    except (AnalysisError, Raised) as e:
+        ctx.note(f"{m.key} not interpretable ({e}); key derivation checked syntactically")
+        return None
+    if len(keys) != 1:
+        return False, f"subscripts the table {len(keys)} times for one call"
+    key = list(keys[0]) if isinstance(keys[0], (tuple, list)) else [keys[0]]
+    if key and key[0] is CODE:
+        key = key[1:]
+    want = [("type-valued", 0, "v0"), ("plain", 1, "v1")]
+    if key != want:
+        return False, f"looks up {key} where the per-position selector gives {want}"
+    return True, ""
 
 
 def r2(ctx):
